@@ -271,17 +271,33 @@ def r2_4(cx):
         cx.check(len(cs) == 1 and len(list(fs[0].calls())) == 1, 'sink:' + m, fs[0], None, 'ZeroCopySink::%s == %s' % (m, short(inner)), fail_detail='the sink impl does more than delegate')
 
 
+def _first_byte_slice(e):
+    """`X[..1]` / `X[0..1]` of a constant array X: returns the node of X, else None"""
+    e = e.strip()
+    if not is_call(e, 'Index<I>>::index') or len(e.args) != 2:
+        return None
+    rng = e.args[1].strip()
+    nm = rng.info.get('name', '') if rng.kind == 'agg' else ''
+    one = (nm.endswith('::RangeTo') and len(rng.args) == 1 and rng.args[0].is_const_int(1)) or \
+        (nm.endswith('::Range') and len(rng.args) == 2 and rng.args[0].is_const_int(0) and rng.args[1].is_const_int(1))
+    x = e.args[0].strip()
+    return x if one and x.kind == 'const' else None
+
+
 def _is_stuff0_push(prog, cs):
-    """push_copy(&[STUFF_SEQUENCE[0]])"""
+    """push_copy(&[STUFF_SEQUENCE[0]]) (or &STUFF_SEQUENCE[..1])"""
     seq0 = prog.const_bytes('hcobs::STUFF_SEQUENCE')[:1].hex()
     a = cs.arg(1)
+    x = _first_byte_slice(a)
+    if x is not None and (named_const(x, 'STUFF_SEQUENCE') or x.info.get('ref_bytes') == prog.const_bytes('hcobs::STUFF_SEQUENCE').hex()):
+        return True
     return any(n.kind == 'agg' and n.info.get('ak') == 'array' and len(n.args) == 1 and _stuff_idx(n.args[0], 0) for n in a.walk()) \
         or any(k.info.get('ref_bytes') == seq0 and k.info.get('ty') == '&[u8; 1]' for k in a.consts())
 
 
 def _one_byte_push(cs):
     a = cs.arg(1)
-    return any(n.kind == 'agg' and n.info.get('ak') == 'array' and len(n.args) == 1 for n in a.walk()) or any(k.info.get('ty') == '&[u8; 1]' for k in a.consts())
+    return _first_byte_slice(a) is not None or any(n.kind == 'agg' and n.info.get('ak') == 'array' and len(n.args) == 1 for n in a.walk()) or any(k.info.get('ty') == '&[u8; 1]' for k in a.consts())
 
 
 def r2_5(cx):
